@@ -16,86 +16,30 @@ def bins_consts(ctx):
     return env
 
 
-def _returns_const_one(stmts, one_name):
-    """True when the block returns 1 / set([1]) / {1} on every path (allowing
-    an `if one:` split)."""
-    if not stmts:
-        return False
-    st = stmts[-1] if len(stmts) == 1 else None
-    if st is None:
-        return False
-    if isinstance(st, ast.Return):
-        return _is_one(st.value)
-    if isinstance(st, ast.If):
-        return _returns_const_one(st.body, one_name) and _returns_const_one(st.orelse, one_name)
-    return False
-
-
-def _is_one(v):
-    if isinstance(v, ast.Constant) and v.value == 1:
-        return True
-    if isinstance(v, ast.Set) and len(v.elts) == 1 and _is_one(v.elts[0]):
-        return True
-    if isinstance(v, ast.Call) and is_name(v.func, "set") and len(v.args) == 1 and \
-            isinstance(v.args[0], (ast.List, ast.Tuple, ast.Set)) and len(v.args[0].elts) == 1 and _is_one(v.args[0].elts[0]):
-        return True
-    if isinstance(v, ast.IfExp):
-        return _is_one(v.body) and _is_one(v.orelse)
-    return False
-
-
-def fallback_guards(ctx):
-    """Guards (ast exprs over the parameters, evaluated before the coordinates
-    are re-bound) whose branch returns the constant whole-chromosome bin."""
+def fallback_predicate(ctx, fmt="gff"):
+    """(predicate(env{start,stop}) -> bool, [], names): whether bins.bins(start, stop, fmt, one=False) is the constant
+    whole-chromosome answer {1}.  Obtained from the abstract interpreter run on singleton intervals (exact there); the
+    callers evaluate it on the threshold points of the order predicates involved, which cut the plane into regions on
+    which the answer is constant."""
+    from .binsai import BinsInterp, ASet, Unsup
     f = ctx.proj.func("bins.bins")
     ctx.touch(f)
-    params = f.params
-    if len(params) < 2:
+    if len(f.params) < 2:
         raise AnalysisError("bins.bins lost its (start, stop) parameters")
-    start, stop = params[0], params[1]
-    guards = []
-    for st in f.node.body:
-        if isinstance(st, ast.Expr) and isinstance(st.value, ast.Constant):
-            continue
-        if isinstance(st, ast.If) and not st.orelse and _returns_const_one(st.body, "one"):
-            guards.append(st.test)
-            continue
-        # the first statement that re-binds a coordinate ends the guard prefix
-        rebinding = False
-        for n in ast.walk(st):
-            if isinstance(n, ast.Name) and isinstance(n.ctx, ast.Store) and n.id in (start, stop):
-                rebinding = True
-        if rebinding:
-            break
-    return f, start, stop, guards
+    consts = bins_consts(ctx)
+    cache = {}
 
-
-def fallback_predicate(ctx, fmt="gff"):
-    """(predicate(env{start,stop}) -> bool, guards, names)"""
-    f, start, stop, guards = fallback_guards(ctx)
-    env = bins_consts(ctx)
-    fmt_param = f.params[2] if len(f.params) > 2 else "fmt"
-
-    def resolve(node):
-        if isinstance(node, ast.Name):
-            if node.id == start:
-                return "start"
-            if node.id == stop:
-                return "stop"
-            if node.id in env and isinstance(env[node.id], int):
-                return env[node.id]
-        if isinstance(node, ast.Subscript) and isinstance(node.value, ast.Name) and node.value.id in env \
-                and isinstance(env[node.value.id], dict):
-            k = node.slice
-            if isinstance(k, ast.Name) and k.id == fmt_param:
-                return env[node.value.id].get(fmt)
-            if isinstance(k, ast.Constant):
-                return env[node.value.id].get(k.value)
-        return None
-    preds = []
-    for g in guards:
-        try:
-            preds.append(py_pred(g, resolve))
-        except ValueError as e:
-            raise AnalysisError("bins.bins guard outside the modelled subset: %s" % e)
-    return (lambda e: any(p(e) for p in preds)), guards, (start, stop)
+    def pred(env):
+        key = (env["start"], env["stop"])
+        if key not in cache:
+            bi = BinsInterp(ctx, f, consts)
+            try:
+                rets = bi.run(fmt, False, (key[0], key[0]), (key[1], key[1]))
+            except Unsup as e:
+                raise AnalysisError("bins.bins outside the modelled subset: %s" % e)
+            if len(rets) != 1:
+                raise AnalysisError("bins.bins(%d, %d) has %d abstract results on singleton input" % (key[0], key[1], len(rets)))
+            v = rets[0].value
+            cache[key] = isinstance(v, ASet) and not v.ranges and v.consts == {1}
+        return cache[key]
+    return pred, [], (f.params[0], f.params[1])
